@@ -209,16 +209,17 @@ def validate_schedule(G, raw, nodes, sup_name: str, prune: bool):
     return problems, stats, positions
 
 
-def ring_replay(G, raw, nodes, positions, sizes: Optional[Dict[str, int]] = None, padded: bool = False):
+def ring_replay(G, raw, nodes, positions, sizes: Optional[Dict[str, int]] = None, padded: bool = False, episodes=None):
     """C08 oracle B: replay the schedule against a model ring buffer per producer."""
     problems: List[tuple] = []
-    stats = dict(ring_wrap=0, negative_seq_read=0, reads=0, writes=0)
+    stats = dict(ring_wrap=0, negative_seq_read=0, reads=0, writes=0, same_generation_read_write_same_slot=0)
     if sizes is None:
         sizes = {n: (max(v) if len(v) else 1) for n, v in G._buffer_sizes.items()}
     if not padded:
         pad = int(getattr(G, "_extra_padding", 0))
         sizes = {n: s + pad for n, s in sizes.items()}
-    for e, pos in enumerate(positions):
+    for e in (range(len(positions)) if episodes is None else episodes):
+        pos = positions[e]
         refw = ref_windows(raw, e, nodes)
         ring = {n: [None] * sizes[n] for n in sizes}
         order = sorted(pos.items(), key=lambda kv: kv[1])
@@ -235,6 +236,13 @@ def ring_replay(G, raw, nodes, positions, sizes: Optional[Dict[str, int]] = None
                             stats["negative_seq_read"] += 1
                             if slot is not None:
                                 problems.append(("default-output-overwritten-before-read", e, kind, k, n1, so, slot, sizes[n1]))
+            # probe: a producer in this generation overwrites the very slot a sibling consumer of the same generation still reads
+            writes = {(kind, k % sizes[kind]): k for (kind, k), _pg in grp}
+            for (kind, k), _pg in grp:
+                for n1, lst in refw[kind][k].items():
+                    for so in lst:
+                        if (n1, so % sizes[n1]) in writes and writes[(n1, so % sizes[n1])] != so:
+                            stats["same_generation_read_write_same_slot"] = stats.get("same_generation_read_write_same_slot", 0) + 1
             for (kind, k), _pg in grp:
                 if k >= sizes[kind]:
                     stats["ring_wrap"] += 1
